@@ -30,6 +30,7 @@ var propConfigs = map[string]*propConfig{
 	"C18": {replay: replayC18, undecided: "real interleavings and data races (timer field read/written without a common lock): contracts cover every sequence of Success/Fail/Proceed/expiry calls and the timer-fires-before-assignment schedule, not arbitrary intra-call interleavings"},
 	"C19": {replay: replayC18, undecided: "that time.AfterFunc fires after exactly the armed delay (A-TIMER); counts, order, armed delay and reset on progress are proved"},
 	"C14": {extra: sweepBrokerWrites, undecided: "that the broker's TCP connection is closed on every session end (close is in run's deferred function, outside the step contracts); only what is written before the close is decided"},
+	"C23": {extra: sweepDatagramSenders, undecided: "datagrams written by anything other than snSend / Client.send (the DTLS layer below them); Pack of packet types neither side sends"},
 	"C24": {extra: sweepSendScope, undecided: "byte-level serialisation of the packet (paho's Write, trusted A-PAHO); UTF-8 well-formedness and the U+0000 ban of MQTT strings; validity of predefined topic names from the configuration (A-CFG)"},
 	"C32": {undecided: "that gateway and client really run with the same configuration (the property's premise); the composition itself is the observation that both sides' contracts resolve a predefined ID with the same specification function nameSpec(configuration, client ID, ID) and a short ID with the proved two-octet coding"},
 	"C13": {undecided: "the time bound (connection poll interval plus pending send); goroutines not in the session's errgroup (per-exchange watcher goroutines and timers end on context cancellation: not decided); that a cause reaches the errgroup (the receive loops are not under contract: A-RECVLOOP)"},
